@@ -1,6 +1,6 @@
 SPECIFICATION Spec
 CONSTANTS
-  Names = {"u1", "u2"}
+  Names = {"alice", "bob"}
   Pws = {"Secret1", "secret1", "LONG"}
   LongPws = {"LONG"}
   ExtraCands = {"", "SECRET1"}
